@@ -1537,6 +1537,206 @@ func main() {
 		}
 	}
 
+	// 15. read results owned by the caller.  "Reads back identically and in order" is about a whole
+	// sequence of reads, and between two reads the caller USES what it got: it appends to a byte
+	// string it has read (key + suffix), scrubs it, keeps it.  None of that may change what the
+	// following reads return, nor what a second decode of the same input returns.  (A reader that
+	// hands out a view of its input — zero copy — is right for every read whose result is only
+	// looked at: an append lands in the spare capacity, i.e. in the fields still to be read.)
+	// Histories: 2..9 fields, byte-string valued fields (blob, short/int-length bytes, limited
+	// int-bytes, raw ReadBytes — lengths 0, small, and both sides of 253/254, 1023/1024, 65535/65536)
+	// mixed with every other kind; after each byte-string result one of keep / append / edit /
+	// append+edit; from memory and, for a share, from a connection.
+	{
+		nown := 1500
+		if env.Thorough {
+			nown = 15000
+		}
+		byteKinds := []string{"blob", "shortBytes", "intBytes", "intBytesLimit", "raw"}
+		isByteKind := func(k string) bool {
+			for _, b := range byteKinds {
+				if b == k {
+					return true
+				}
+			}
+			return false
+		}
+		lens := []int{0, 0, 1, 2, 3, 8, 40, 253, 254, 255, 1023, 1024, 4096}
+		str := func(o op) string {
+			if o.kind == "raw" || o.kind == "intBytesLimit" {
+				return o.kind + ":" + vh.Hex(o.bs)
+			}
+			return o.String()
+		}
+		wr := func(out *gio.DataOutputX, o op) {
+			switch o.kind {
+			case "raw":
+				out.WriteBytes(o.bs)
+			case "intBytesLimit":
+				out.WriteIntBytes(o.bs)
+			default:
+				write(out, o)
+			}
+		}
+		rd := func(in *gio.DataInputX, w op) op {
+			switch w.kind {
+			case "raw":
+				return op{kind: "raw", bs: in.ReadBytes(int32(len(w.bs)))}
+			case "intBytesLimit":
+				return op{kind: "intBytesLimit", bs: in.ReadIntBytesLimit(len(w.bs) + len(w.bs)%3)}
+			}
+			return readRaw(in, w.kind)
+		}
+		// decode reads the fields of ops from in, applying acts[j] to the j-th result right after it
+		// was returned; values are rendered at the moment of return (before the caller touches them)
+		decode := func(in *gio.DataInputX, ops []op, acts []string, junk [][]byte) (vals []string, avail int32, oc vh.Outcome) {
+			oc = vh.Guard(func() {
+				for j, w := range ops {
+					r := rd(in, w)
+					vals = append(vals, str(r))
+					if acts != nil && isByteKind(w.kind) {
+						if strings.Contains(acts[j], "append") {
+							ext := append(r.bs, junk[j]...)
+							_ = ext
+						}
+						if strings.Contains(acts[j], "edit") {
+							for i := range r.bs {
+								r.bs[i] ^= 0x5a
+							}
+						}
+					}
+				}
+				avail = in.Available()
+			})
+			return
+		}
+		bad := map[string]bool{}
+		for i := 0; i < nown; i++ {
+			n := 2 + rng.Intn(8)
+			ops := make([]op, n)
+			acts := make([]string, n)
+			junk := make([][]byte, n)
+			used := false // a byte-string result that is not the last field is appended to or edited
+			for j := range ops {
+				if rng.Chance(45) || (j == n-2 && !used) {
+					ln := rng.Intn(24)
+					switch {
+					case rng.Chance(35):
+						ln = rng.PickInt(lens)
+					case rng.Chance(1):
+						ln = 65530 + rng.Intn(12)
+					}
+					k := rng.PickStr(byteKinds)
+					if k == "shortBytes" && ln > 65535 {
+						ln = 65535
+					}
+					ops[j] = op{kind: k, bs: rng.Bytes(ln)}
+				} else {
+					ops[j] = genOp(rng, false)
+				}
+				acts[j] = "keep"
+				if isByteKind(ops[j].kind) {
+					acts[j] = rng.PickStr([]string{"keep", "append", "append", "edit", "append+edit"})
+					if j == n-2 && !used {
+						acts[j] = "append"
+					}
+					junk[j] = rng.Bytes(1 + rng.Intn(40))
+					if acts[j] != "keep" && j < n-1 {
+						used = true
+					}
+				}
+			}
+			var data []byte
+			want := make([]string, n)
+			ocw := vh.Guard(func() {
+				out := gio.NewDataOutputX()
+				for j, o := range ops {
+					wr(out, o)
+					want[j] = str(o)
+				}
+				data = append([]byte{}, out.ToByteArray()...)
+			})
+			if !ocw.OK() {
+				rep.Fail("property", "write-panic:owned-result", "writer panicked: "+ocw.Panic, map[string]interface{}{"ops": vh.Clip(strings.Join(want, ";"), 3000)})
+				continue
+			}
+			line := strings.Join(want, ";")
+			rep.Case("owned:"+line+"|"+strings.Join(acts, ","), used)
+			rep.Count("owned-result")
+			for j := range ops {
+				if isByteKind(ops[j].kind) {
+					rep.Count("owned-result:" + acts[j])
+				}
+			}
+			pristine := append([]byte{}, data...)
+			overConn := len(data) < 60000 && rng.Chance(12)
+			var vals []string
+			var avail int32
+			var oc vh.Outcome
+			if overConn {
+				rep.Count("owned-result:connection")
+				c1, c2 := net.Pipe()
+				go func() {
+					c1.Write(append([]byte{}, data...))
+					c1.Close()
+				}()
+				oc = vh.GuardTimeout(60*time.Second, func() {
+					var o2 vh.Outcome
+					vals, avail, o2 = decode(gio.NewDataInputNet(c2), ops, acts, junk)
+					if !o2.OK() {
+						panic(o2.Panic)
+					}
+				})
+				c2.Close()
+			} else {
+				vals, avail, oc = decode(gio.NewDataInputX(data), ops, acts, junk)
+			}
+			// what went wrong, and after the use of which kind of result
+			class := ""
+			d := len(vals)
+			for j := range vals {
+				if vals[j] != want[j] {
+					d = j
+					break
+				}
+			}
+			switch {
+			case d < len(vals):
+				class = "later-read-differs"
+			case !oc.OK():
+				class = "later-read-panics"
+			case avail != 0:
+				class = "available"
+			case !bytes.Equal(data, pristine):
+				class, d = "input-changed", n
+			}
+			if class == "" && !overConn {
+				// a second decode of the same input (nothing touched this time) sees the same values
+				v2, _, oc2 := decode(gio.NewDataInputX(data), ops, nil, nil)
+				if !oc2.OK() || strings.Join(v2, ";") != line {
+					class, d = "second-decode-differs", n
+				}
+			}
+			if class != "" {
+				after := "none"
+				for j := d - 1; j >= 0 && j < n; j-- {
+					if isByteKind(ops[j].kind) && acts[j] != "keep" {
+						after = ops[j].kind + ":" + acts[j]
+						break
+					}
+				}
+				key := "caller-owned-result:" + class + ":after-" + strings.SplitN(after, ":", 2)[0]
+				if !bad[key] {
+					bad[key] = true
+					rep.Fail("property", key, "after the caller appended to / edited a byte string it had read ("+after+"), the following reads (or a second decode of the same input) do not give what was written: the result is not the caller's own",
+						map[string]interface{}{"ops": vh.Clip(line, 3000), "caller_does_after_each_read": strings.Join(acts, ","), "input": vh.Clip(vh.Hex(pristine), 3000),
+							"input_afterwards": vh.Clip(vh.Hex(data), 3000), "read": vh.Clip(strings.Join(vals, ";"), 3000), "first_wrong_field": d, "available": avail,
+							"panic": oc.Panic, "connection_backed": overConn})
+				}
+			}
+		}
+	}
+
 	// 9. independent encoders/decoders used at the same time.  The property is stated per encoder;
 	// it must therefore hold for each of several encoders whatever the others are doing (an encoder
 	// that stages bytes in package-level memory is correct alone and wrong in company).  A pool of
